@@ -45,6 +45,7 @@ def configs(quick):
         # four terminals with generic currents: the order in which terminal currents are summed must be fixed
         dict(name="four_terminals", dev="cross4", currents4=[5.1, -2.3, -3.7, 0.9], adaptive=True, T=0.12),
     ]
+    c.append(dict(name="pulsed_current", dev="bar", pulsed_current=True, adaptive=False, dt=1e-3, T=0.15))
     # a screened run started from a seed solution (the seed object is used twice in the worker)
     c.append(dict(name="screening_seeded", dev="ring", lam=0.5, screening=True, seeded=True, adaptive=False, T=0.04))
     if not quick:
